@@ -9,6 +9,7 @@ import (
 	"sort"
 	"strconv"
 	"strings"
+	"unicode/utf8"
 )
 
 func md5sum(b []byte) []byte {
@@ -170,7 +171,7 @@ func (x *Exec) Compare(op Op, exp Op, o *Observed) []string {
 			if cr.ETag != want {
 				add("CompleteMultipartUploadResult ETag: got %s, want %s", cr.ETag, want)
 			}
-			if cr.Key != x.Conc.Key(op.Key("k")) || cr.Bucket != op.S("b") {
+			if cr.Key != xmlKey(x.Conc.Key(op.Key("k"))) || cr.Bucket != op.S("b") {
 				add("CompleteMultipartUploadResult names %s/%s", cr.Bucket, cr.Key)
 			}
 		}
@@ -259,7 +260,7 @@ func (x *Exec) Compare(op Op, exp Op, o *Observed) []string {
 				got = append(got, d.Key)
 			}
 			for _, d := range exp.List("deleted") {
-				want = append(want, x.Conc.Key(toBytes(d)))
+				want = append(want, xmlKey(x.Conc.Key(toBytes(d))))
 			}
 			sort.Strings(got)
 			sort.Strings(want)
@@ -300,7 +301,7 @@ func (x *Exec) Compare(op Op, exp Op, o *Observed) []string {
 				}
 			}
 			x.Uids[sym] = in.UploadID
-			if in.Key != x.Conc.Key(op.Key("k")) || in.Bucket != op.S("b") {
+			if in.Key != xmlKey(x.Conc.Key(op.Key("k"))) || in.Bucket != op.S("b") {
 				add("InitiateMultipartUploadResult names %s/%s", in.Bucket, in.Key)
 			}
 		}
@@ -329,13 +330,13 @@ func (x *Exec) compareList(op Op, exp Op, o *Observed) []string {
 		}
 		var w []string
 		for _, e := range want {
-			w = append(w, x.Conc.Key(Op(e.(map[string]interface{})).Key("k")))
+			w = append(w, xmlKey(x.Conc.Key(Op(e.(map[string]interface{})).Key("k"))))
 		}
 		add("Contents: got %q, want %q", got, w)
 	} else {
 		for i, e := range want {
 			eo := Op(e.(map[string]interface{}))
-			wk := x.Conc.Key(eo.Key("k"))
+			wk := xmlKey(x.Conc.Key(eo.Key("k")))
 			c := lb.Contents[i]
 			if c.Key != wk {
 				add("Contents[%d].Key: got %q, want %q", i, c.Key, wk)
@@ -356,11 +357,11 @@ func (x *Exec) compareList(op Op, exp Op, o *Observed) []string {
 	}
 	opt := map[string]bool{}
 	for _, p := range exp.List("optPrefixes") {
-		opt[x.Conc.Key(toBytes(p))] = true
+		opt[xmlKey(x.Conc.Key(toBytes(p)))] = true
 	}
 	var wantP []string
 	for _, p := range exp.List("prefixes") {
-		wantP = append(wantP, x.Conc.Key(toBytes(p)))
+		wantP = append(wantP, xmlKey(x.Conc.Key(toBytes(p))))
 	}
 	// required prefixes in order; optional ones may be interleaved
 	var gotReq []string
@@ -384,7 +385,7 @@ func (x *Exec) compareList(op Op, exp Op, o *Observed) []string {
 	}
 	if exp.Has("echo") && !x.Api {
 		e := exp.Sub("echo")
-		if want := x.Conc.Key(e.Key("prefix")); lb.Prefix != want {
+		if want := xmlKey(x.Conc.KeyPrefix(e.Key("prefix"))); lb.Prefix != want {
 			add("listing echoes Prefix %q, want %q", lb.Prefix, want)
 		}
 		if want := e.Key("delim"); lb.Delimiter != want {
@@ -442,7 +443,7 @@ func (x *Exec) compareVersions(op Op, exp Op, o *Observed) []string {
 	var wantKeys []string
 	for _, w := range want {
 		wo := Op(w.(map[string]interface{}))
-		k := x.Conc.Key(wo.Key("k"))
+		k := xmlKey(x.Conc.Key(wo.Key("k")))
 		if _, ok := wantBy[k]; !ok {
 			wantKeys = append(wantKeys, k)
 		}
@@ -554,7 +555,7 @@ func (x *Exec) compareUploads(op Op, exp Op, o *Observed) []string {
 	}
 	for _, w := range exp.List("uploads") {
 		wo := Op(w.(map[string]interface{}))
-		want = append(want, x.Conc.Key(wo.Key("k"))+"\x01"+x.realUid(wo.S("uid")))
+		want = append(want, xmlKey(x.Conc.Key(wo.Key("k")))+"\x01"+x.realUid(wo.S("uid")))
 	}
 	if strings.Join(got, "\x00") != strings.Join(want, "\x00") {
 		add("uploads: got %q, want %q", got, want)
@@ -595,4 +596,20 @@ func diffSets(want, got []string) (missing, extra []string) {
 		}
 	}
 	return
+}
+
+// xmlKey is the form in which a key can appear in an XML document: bytes that are not valid UTF-8 cannot be
+// represented and arrive as U+FFFD (as would characters XML 1.0 excludes).
+func xmlKey(k string) string {
+	var sb strings.Builder
+	for i := 0; i < len(k); {
+		r, w := utf8.DecodeRuneInString(k[i:])
+		if r == utf8.RuneError && w == 1 {
+			sb.WriteString("\uFFFD") // (the encoder writes one replacement character per invalid byte)
+		} else {
+			sb.WriteString(k[i : i+w])
+		}
+		i += w
+	}
+	return sb.String()
 }
